@@ -99,14 +99,22 @@ def prop_file(pid: str) -> str:
     return os.path.join(LEAN, "U3", "Props", f"{pid}.lean")
 
 
+def _blank_comments(src: str) -> str:
+    """comments replaced by blanks, newlines kept (so that line numbers stay valid)"""
+    def blank(m):
+        return re.sub(r"[^\n]", " ", m.group(0))
+    src = re.sub(r"/-.*?-/", blank, src, flags=re.S)
+    return re.sub(r"--[^\n]*", blank, src)
+
+
 def theorems_of(pid: str) -> list[str]:
-    """(name, first line, last line) of every theorem in the property file."""
-    src = open(prop_file(pid)).read()
+    """names of the property theorems (`Cxx_…`) in the property file, comments ignored"""
+    src = _blank_comments(open(prop_file(pid)).read())
     return [m.group(1) for m in _THM_RE.finditer(src) if re.match(r"C\d\d_", m.group(1))]
 
 
 def _theorem_spans(path: str):
-    src = open(path).read()
+    src = _blank_comments(open(path).read())
     ms = list(_THM_RE.finditer(src))
     spans = []
     for i, m in enumerate(ms):
@@ -338,6 +346,9 @@ class Prop:
         rng = random.Random(f"{self.id}/{seed}/{tier}/{int(escalate)}")
         pending = []
         nlines = 0
+        known = set(known_signatures(self.id))
+        per_sig = {}
+        nf_seen = 0
         for idx, case in enumerate(self.cases(rng, tier, escalate)):
             if idx % nshards != shard:
                 continue
@@ -345,10 +356,22 @@ class Prop:
                 res.bump("stopped_at_deadline")
                 break
             self.compare_case(case, res, pending)
+            # keep a few failures per signature (known findings can be frequent); count the rest
+            if len(res.failures) > nf_seen:
+                kept = res.failures[:nf_seen]
+                for f in res.failures[nf_seen:]:
+                    sig = f.get("signature", "")
+                    per_sig[sig] = per_sig.get(sig, 0) + 1
+                    res.bump("failure:" + sig)
+                    if per_sig[sig] <= 5:
+                        kept.append(f)
+                res.failures = kept
+                nf_seen = len(kept)
             nlines = sum(len(p[1]) + 1 for p in pending)
             if nlines >= self.batch:
                 self.flush(res, pending, f"s{shard}")
-            if len(res.disagreements) > 20 or len(res.failures) > 200:
+            unknown = sum(n for sg, n in per_sig.items() if sg not in known)
+            if len(res.disagreements) > 20 or unknown > 200:
                 break
         self.flush(res, pending, f"s{shard}")
         return res
